@@ -57,6 +57,10 @@ def check_window_chunk(args):
     sizes = 0
     for w, line in zip(windows, out):
         pre = [absmach.parse_peep(t) for t in w]
+        labels = [i[1] for i in pre if i[0] == 'Label']
+        if len(labels) != len(set(labels)):
+            # the same label defined twice: not a stream any compiler produces (labels are unique per function)
+            continue
         if line.startswith('ERR') or line == 'PANIC' or '|' not in line:
             bad.append((w, 'optimiser failed on window: ' + line[:80], line))
             continue
